@@ -2,9 +2,18 @@
   C13 — lazy access: correct at multi-terabyte scale. The wide-offset obligations: every mask, shift and bit-field
   through which a reader decodes a file offset keeps every offset the format can express (beyond 2^32 bytes and 2^32
   sectors), with the masks / layouts taken from the extraction.
+
+  The I/O clause ("proportional to the request, never scanning") is stated on the pure models as *footprint* theorems:
+  `Hv.Footprint.{vdi,vhd,hds}` name, from the geometry alone, the file ranges a read of `[off, off+len)` may look at
+  (the table entries of the units the request touches and the requested part of each allocated unit);
+  `*_read_footprint`: the reader's result is the same on any two files of equal size that agree on those ranges;
+  `*_open_footprint`: the same for the constructors (header + the tables loaded eagerly);
+  `io_bound`: the footprint's total length is bounded by the request and the geometry only — no term for the number
+  of allocated units or the size of the file; `no_scan`: every data range lies inside a unit the request maps to.
 -/
 import HvProofs.Wide
 import HvProofs.Basic
+import HvProofs.Footprint
 namespace Hv.C13
 open Hv Hv.Wide
 
@@ -170,5 +179,117 @@ theorem vhd_bat_entry_unsigned (e : Nat) (he : e < 2 ^ 32) :
 /-! non-vacuity: concrete far offsets -/
 example : (0xFF000000 * 512 : Nat) ≥ 2 ^ 40 ∧ beNat (beBytes 4 0xFF000000) = 0xFF000000 := by decide
 example : ((2 ^ 55 + 2 ^ 33 : Nat) ||| 2 ^ 63) &&& Extracted.qcow2.L2E_OFFSET_MASK = 2 ^ 55 + 2 ^ 33 := by decide
+
+/-! ## I/O footprint -/
+section footprint
+open Hv.Footprint
+
+/-- **vdi_read_footprint**: `VDI._read(off, len)` looks only at the requested part of the data blocks that the (already
+    loaded) block map assigns to the block indices `off / bs .. (off+len-1) / bs`: any other file of the same size that
+    agrees on those ranges gives the same result (bytes or error). No hypothesis on the image. -/
+theorem vdi_read_footprint (v : Vdi.Vdi) (f' : File) (off len : Nat) (hsz : v.fh.size = f'.size)
+    (h : ∀ r ∈ Footprint.vdi v off len, ∀ p, r.1 ≤ p → p < r.1 + r.2 → v.fh.byte p = f'.byte p) :
+    Vdi.read v off len = Vdi.read { v with fh := f' } off len :=
+  Footprint.vdi_read_footprint v f' off len ⟨hsz, h⟩
+
+/-- **vdi_open_footprint**: `VDI.__init__` looks only at the 456-byte header and the block map the header names -/
+theorem vdi_open_footprint (f f' : File) (par : Option Vdi.Reader) (hsz : f.size = f'.size)
+    (h : ∀ r ∈ Footprint.vdiOpen f, ∀ p, r.1 ≤ p → p < r.1 + r.2 → f.byte p = f'.byte p) :
+    Vdi.open f' par = (Vdi.open f par).map (fun v => { v with fh := f' }) :=
+  Footprint.vdi_open_footprint f f' par ⟨hsz, h⟩
+
+/-- **vhd_read_footprint**: `VHD._read(off, len)` looks only at the 4-byte BAT entries of the blocks the request's
+    sectors touch and at the requested sectors inside the blocks those entries name (fixed disks: the requested
+    sectors). -/
+theorem vhd_read_footprint (v : Vhd.Vhd) (f' : File) (off len : Nat) (hsz : v.fh.size = f'.size)
+    (h : ∀ r ∈ Footprint.vhd v off len, ∀ p, r.1 ≤ p → p < r.1 + r.2 → v.fh.byte p = f'.byte p) :
+    v.read off len = ({ v with fh := f' } : Vhd.Vhd).read off len :=
+  Footprint.vhd_read_footprint v f' off len ⟨hsz, h⟩
+
+/-- **vhd_open_footprint**: `VHD.__init__` looks only at the last 512 bytes and the dynamic header the footer names -/
+theorem vhd_open_footprint (f f' : File) (hsz : f.size = f'.size)
+    (h : ∀ r ∈ Footprint.vhdOpen f, ∀ p, r.1 ≤ p → p < r.1 + r.2 → f.byte p = f'.byte p) :
+    Vhd.open f' = (Vhd.open f).map (fun v => { v with fh := f' }) :=
+  Footprint.vhd_open_footprint f f' ⟨hsz, h⟩
+
+/-- **hds_read_footprint**: `HDS._read(off, len)` — run coalescing included — looks only at the requested part of the
+    clusters that the (already loaded) BAT assigns to the cluster indices the request touches. -/
+theorem hds_read_footprint (v : Hds.Hds) (f' : File) (off len : Nat) (hsz : v.fh.size = f'.size)
+    (h : ∀ r ∈ Footprint.hds v off len, ∀ p, r.1 ≤ p → p < r.1 + r.2 → v.fh.byte p = f'.byte p) :
+    v.read off len = ({ v with fh := f' } : Hds.Hds).read off len :=
+  Footprint.hds_read_footprint v f' off len ⟨hsz, h⟩
+
+/-- **hds_open_footprint**: `HDS.__init__` + `bat` look only at the 64-byte header and the BAT behind it -/
+theorem hds_open_footprint (f f' : File) (par : Option Hds.Reader) (hsz : f.size = f'.size)
+    (h : ∀ r ∈ Footprint.hdsOpen f, ∀ p, r.1 ≤ p → p < r.1 + r.2 → f.byte p = f'.byte p) :
+    Hds.open f' par = (Hds.open f par).map (fun v => { v with fh := f' }) :=
+  Footprint.hds_open_footprint f f' par ⟨hsz, h⟩
+
+/-- **vhdx_read_footprint_partial**: for requests that touch no PARTIALLY_PRESENT block, `VHDX._read(off, len)` looks only
+    at the 8-byte BAT entries of the payload blocks the request's sectors touch and at the requested sectors of the
+    fully present ones.
+    Full statement (not proved): the same without `hnp` — `Footprint.vhdx` already lists, for a partially present block,
+    the sector-bitmap BAT entry, the bitmap bytes of the requested sectors and the requested sectors; what is missing is
+    the lemma that the run counts of `_iter_partial_runs(bitmap, start, n)` add up to at most `n`, so that every present
+    run lies inside the requested sectors. -/
+theorem vhdx_read_footprint_partial (v : Vhdx.Vhdx) (f' : File) (off len : Nat) (hsz : v.fh.size = f'.size)
+    (h : ∀ r ∈ Footprint.vhdx v off len, ∀ p, r.1 ≤ p → p < r.1 + r.2 → v.fh.byte p = f'.byte p)
+    (hnp : ∀ i ∈ unitsTouched v.spb (off / v.sectorSize) ((min len (v.size - off) + v.sectorSize - 1) / v.sectorSize),
+      ∀ st mb, v.batGet (v.pbIndex i) = .ok (st, mb) → st ≠ Extracted.vhdx.PAYLOAD_BLOCK_PARTIALLY_PRESENT) :
+    v.read off len = ({ v with fh := f' } : Vhdx.Vhdx).read off len :=
+  Footprint.vhdx_read_footprint_partial v f' off len ⟨hsz, h⟩ hnp
+
+/-- **io_bound** (`footprint_size_bound`): the number of file bytes a request may look at is bounded by the request and
+    the geometry alone: at most `len` data bytes (VHD: whole sectors) plus one table entry per unit touched, of which
+    there are at most `len / unit + 2`. No term for the number of allocated units, the table size or the file size. -/
+theorem io_bound :
+    (∀ (v : Vdi.Vdi) (off len : Nat), total (Footprint.vdi v off len) ≤ len) ∧
+    (∀ (v : Vhd.Vhd) (off len : Nat), total (Footprint.vhd v off len) ≤ len + 511 + ((len + 511) / 512 / v.spb + 2) * 4) ∧
+    (∀ (v : Hds.Hds) (off len : Nat), total (Footprint.hds v off len) ≤ len) := by
+  refine ⟨fun v off len => ?_, fun v off len => ?_, fun v off len => hds_footprint_size_bound v off len⟩
+  · exact Nat.le_trans (vdi_footprint_size_bound v off len) (Nat.min_le_left _ _)
+  · have h := vhd_footprint_size_bound v off len
+    have hS : Vhd.S = 512 := rfl
+    rw [hS] at h
+    have h1 : (min len (v.size - off) + 512 - 1) / 512 ≤ (len + 511) / 512 :=
+      Nat.div_le_div_right (by omega)
+    have h2 : (min len (v.size - off) + 512 - 1) / 512 / v.spb ≤ (len + 511) / 512 / v.spb := Nat.div_le_div_right h1
+    have h3 : (min len (v.size - off) + 512 - 1) / 512 * 512 ≤ min len (v.size - off) + 512 - 1 := Nat.div_mul_le_self _ _
+    omega
+
+/-- **no_scan** (`footprint_inside_request_units`): every range of a footprint is the table entry of a unit the request
+    touches or lies inside the data area that this entry names — nothing else of the file is looked at. -/
+theorem no_scan :
+    (∀ (v : Vdi.Vdi) (off len : Nat), 0 < v.blockSize → ∀ r ∈ Footprint.vdi v off len,
+      ∃ i b, off / v.blockSize ≤ i ∧ i ≤ (off + min len (v.size - off) - 1) / v.blockSize ∧ v.map[i]? = some b ∧
+        b ≠ -1 ∧ b ≠ -2 ∧ (v.dataOffset : Int) + b * (v.blockSize : Int) ≤ (r.1 : Int) ∧
+        (r.1 : Int) + (r.2 : Int) ≤ (v.dataOffset : Int) + (b + 1) * (v.blockSize : Int)) ∧
+    (∀ (v : Vhd.Vhd) (off len : Nat), v.kind = .dynamic → 0 < v.spb → ∀ r ∈ Footprint.vhd v off len,
+      ∃ i, off / 512 / v.spb ≤ i ∧ i ≤ (off / 512 + (min len (v.size - off) + 512 - 1) / 512 - 1) / v.spb ∧ i < v.maxEntries ∧
+        (r = (v.tableOffset + i * 4, 4) ∨
+          (v.batRaw i ≠ 0xFFFFFFFF ∧ v.batRaw i ≠ 0 ∧ (v.batRaw i + v.bitmapSectors) * 512 ≤ r.1 ∧
+            r.1 + r.2 ≤ (v.batRaw i + v.bitmapSectors + v.spb) * 512))) ∧
+    (∀ (v : Hds.Hds) (off len : Nat), 0 < v.clusterSize → ∀ r ∈ Footprint.hds v off len,
+      ∃ i e, off / v.clusterSize ≤ i ∧ i ≤ (off + len - 1) / v.clusterSize ∧ i * v.clusterSize < v.size ∧
+        v.bat[i]? = some e ∧ e ≠ 0 ∧ e * v.mult * 512 ≤ r.1 ∧ r.1 + r.2 ≤ e * v.mult * 512 + v.clusterSize) :=
+  ⟨fun v off len h r hr => vdi_footprint_inside v off len h r hr,
+   fun v off len hk h r hr => vhd_footprint_inside v off len hk h r hr,
+   fun v off len h r hr => hds_footprint_inside v off len h r hr⟩
+
+/-! non-vacuity: a VDI whose blocks sit beyond 2^40; a 2-byte request inside block 0 looks at 2 bytes at 2^40+…, and a
+    file that differs everywhere else reads the same -/
+example : Footprint.vdi exVdi 1 2 = [(2 ^ 40 + 5 * 4096 + 1, 2)] := by decide
+example : Footprint.vdi exVdi 4095 4098 = [(2 ^ 40 + 5 * 4096 + 4095, 1), (2 ^ 40, 1)] := by decide
+example (g : Nat → UInt8) : Vdi.read exVdi 1 2 = Vdi.read { exVdi with fh := exFile g } 1 2 := by
+  refine vdi_read_footprint exVdi (exFile g) 1 2 rfl ?_
+  intro r hr p h1 h2
+  have : r = (2 ^ 40 + 5 * 4096 + 1, 2) := by
+    have e : Footprint.vdi exVdi 1 2 = [(2 ^ 40 + 5 * 4096 + 1, 2)] := by decide
+    rw [e] at hr; simpa using hr
+  subst this
+  have : p = 2 ^ 40 + 5 * 4096 + 1 ∨ p = 2 ^ 40 + 5 * 4096 + 2 := by simp only at h1 h2; omega
+  simp only [exVdi, exFile, this, if_true]
+
+end footprint
 
 end Hv.C13
